@@ -14,9 +14,9 @@ if c.replay:
 fams = [
     # every subset of file parts merged, fan-in 2..4, queries before/after each maintenance step
     dict(name='measure-merge-subsets', series=[1, 2], times=[1, 2], versions=[1, 2], versioned=True, maxrows=1, maxtotal=4,
-         maxops=7 if c.quick else 9, graphops=0, sims=220 if c.quick else 2000, simops=12),
+         maxops=6 if c.quick else 9, graphops=0, sims=220 if c.quick else 2000, simops=12),
     dict(name='measure-merge-batches', series=[1, 2], times=[1, 2], versions=[1, 2], versioned=True, maxrows=2, maxtotal=4,
-         maxops=5 if c.quick else 7, graphops=0, sims=100 if c.quick else 1000, simops=12, sim=dict(times=[1, 2, 3], maxtotal=6)),
+         maxops=4 if c.quick else 7, graphops=0, sims=100 if c.quick else 1000, simops=12, sim=dict(times=[1, 2, 3], maxtotal=6)),
 ]
 def nontrivial(st):
     ops = [x['last'].get('op') for x in st[1:]]
